@@ -514,7 +514,7 @@ fn parse_json_event(input: &[u8], output: &mut [u8]) -> Result<(usize, usize), E
             complete |= HAVE_CREATED_AT;
         } else {
             // unknown field (the opening quote of its name is already consumed)
-            burn_rest_of_key_and_value(input, &mut inpos)?;
+            burn_rest_of_key_and_value(input, &mut inpos, 0)?;
         }
 
         // get past the comma, or detect the close brace and exit
